@@ -147,7 +147,9 @@ def _resolve(ref):
     return ref
 
 
-def flatten(case) -> Flat:
+def flatten(case, nested_drops_passive=False) -> Flat:
+    """nested_drops_passive: known finding F29 emulation - a passive() marker on an ARGUMENT of a nested call is lost (the inner
+    consumers of that parameter are woken by its ticks); inline the marker reaches every consumer of the parameter."""
     insts = []
 
     def new(op, uid, kw, ins, path):
@@ -188,6 +190,8 @@ def flatten(case) -> Flat:
             if op in ("inline", "nested", "try"):
                 sid = int(st.kw["sid"])
                 args = [get(a) for a in st.args]
+                if nested_drops_passive and op == "nested":
+                    args = [Ref(r.target, False, r.via) for r in args]
                 # nested_<G> with equal inputs and scalars is interned; so is every node wired inline.
                 key = None
                 sub_path = path + ((op, sid, len(insts)),)
